@@ -524,10 +524,17 @@ def c15_f(ctx: Ctx):
     return out
 
 
+@rule("C15-h")
+def c15_h(ctx: Ctx):
+    """Whole-package cross-checks for the synchronisation: no exchanged positional arguments in resolved internal calls; diagnostics do no work."""
+    from .lints import swapped_arguments, pure_logging
+    return swapped_arguments(ctx, "C15-h", ["signac.sync", "signac.project", "signac.job"]) + pure_logging(ctx, "C15-h", ["signac.sync", "signac.project", "signac.job"])
+
+
 @rule("C15-g")
 def c15_g(ctx: Ctx):
     """Reading dst.document / dst.stores during a (dry-run) sync cannot write: the lazy accessors initialise without validation."""
     return common.lazy_accessor_init(ctx, "C15-g")
 
 
-RULES = [c15_a, c15_b, c15_c, c15_d, c15_e, c15_f, c15_g]
+RULES = [c15_a, c15_b, c15_c, c15_d, c15_e, c15_f, c15_g, c15_h]
